@@ -1610,6 +1610,8 @@ impl Machine {
         'outer: loop {
             loop {
                 interrupt_counter += 1;
+                #[cfg(feature = "verif_hooks")]
+                crate::verif_hooks::on_dispatched_instruction();
                 if interrupt_counter.0 == 0 {
                     break;
                 }
